@@ -3,7 +3,7 @@
 
    requests
      {"op":"reset","cfg":{maxApdu,seg,maxSegs,window,retries,apduTimeout,segTimeout,appTimeout}}
-     {"op":"recv","src":"0a","hex":"<link octets>","app":[<answer>…]}
+     {"op":"recv","src":"0a","bc":false,"hex":"<link octets>","app":[<answer>…]}      bc = link-level broadcast
          the application's answers, consumed one per indication of a confirmed
          request, in order (the harness records them on the real device):
          <answer> = {"k":"simple"|"complex"|"error"|"reject"|"abort","hex":"…","r":n,"srv":b,"dcc":0|1|2|null}
@@ -77,7 +77,7 @@ def jFrame (f : Frame) : Json :=
   Json.arr #[(match f.dst with | none => Json.null | some m => jHex m), jHex f.octets]
 
 def fateName : Fate → String
-  | .badNpci => "badNpci" | .notForUs => "notForUs" | .unknownMsg => "unknownMsg"
+  | .badNpci => "badNpci" | .spoofed => "spoofed" | .notForUs => "notForUs" | .unknownMsg => "unknownMsg"
   | .badMsg => "badMsg" | .netMsg => "netMsg" | .badApci => "badApci" | .delivered => "delivered"
 
 def hdrSig (f : Frame) : String :=
@@ -100,6 +100,7 @@ def report (st : DSt) (extra : List (String × Json)) (outs : List Frame) (br : 
      ("sv", Json.arr (st.dev.sap.servers.map jSv).toArray),
      ("cl", Json.num st.dev.sap.clients.length),
      ("dcc", Json.num (dccCode st.dev.sap.dcc)),
+     ("net", Json.arr #[jNatOpt st.dev.net, jNatOpt st.dev.netCfg]),
      ("br", Json.str br)])
 
 def handle (st : DSt) (j : Json) : R (DSt × Json) := do
@@ -113,12 +114,14 @@ def handle (st : DSt) (j : Json) : R (DSt × Json) := do
     let f ← fldHex j "hex"
     let answers ← (← fldArr j "app").toList.mapM answerOfJson
     let dev0 := { st.dev with app := { queue := answers } }
-    let (dev1, outs) := recv (devCfg st.base) dev0 src f
+    let bc := fldB j "bc"
+    let ft := fate st.dev.net f
+    let (dev1, outs) := recv (devCfg st.base) dev0 src bc f
     let st' := { st with dev := dev1 }
     let wf := wellFramed f
-    let br := s!"{fateName (fate f)}:{if wf.isSome then "wf" else "-"}:{dev1.app.asked}:" ++
+    let br := s!"{fateName ft}{if bc then "*" else ""}:{if wf.isSome then "wf" else "-"}:{dev1.app.asked}:" ++
       String.intercalate "," (outs.map hdrSig)
-    pure (st', report st' [("fate", Json.str (fateName (fate f))), ("wf", jNatOpt wf),
+    pure (st', report st' [("fate", Json.str (fateName ft)), ("wf", jNatOpt wf),
                            ("left", Json.num dev1.app.queue.length)] outs br)
   | "quiesce" =>
     let dev0 := { st.dev with app := {} }
